@@ -84,7 +84,7 @@ def items(validator, items, instance, schema):
 def additionalItems(validator, aI, instance, schema):
     if (
         not validator.is_type(instance, "array") or
-        validator.is_type(schema.get("items", {}), "object")
+        not validator.is_type(schema.get("items", {}), "array")
     ):
         return
 
